@@ -32,11 +32,12 @@ TNS = "urn:T"
 DECL = {
     "tB": ('<xs:complexType name="tB" final="restriction"><xs:sequence><xs:element name="x" type="xs:string"/>'
            '</xs:sequence></xs:complexType>'),
-    "tD": ('<xs:complexType name="tD"><xs:complexContent><xs:extension base="t:tB"><xs:sequence>'
+    "tD": ('<xs:complexType name="tD"@DA@><xs:complexContent><xs:extension base="t:tB"><xs:sequence>'
            '<xs:element name="y" type="xs:int"/></xs:sequence><xs:attributeGroup ref="t:ag"/>'
            '</xs:extension></xs:complexContent></xs:complexType>'),
     "ag": ('<xs:attributeGroup name="ag"><xs:attribute name="p" type="xs:int"/><xs:attribute ref="v:a"/>'
            '</xs:attributeGroup>'),
+    "dflt": '<xs:attributeGroup name="dflt"><xs:attribute name="d" type="xs:int"/></xs:attributeGroup>',
     "g": '<xs:group name="g"><xs:sequence><xs:element ref="t:e"/></xs:sequence></xs:group>',
     "e": '<xs:element name="e" type="t:tD" block="restriction"/>',
     "m": '<xs:element name="m" type="t:tD" substitutionGroup="t:e"/>',
@@ -46,7 +47,7 @@ DECL = {
           '<xs:keyref name="R" refer="t:K"><xs:selector xpath="t:m"/><xs:field xpath="@p"/></xs:keyref>'
           '</xs:element>'),
 }
-KIND = {"tB": "type", "tD": "type", "ag": "attribute_group", "g": "group", "e": "element",
+KIND = {"tB": "type", "tD": "type", "ag": "attribute_group", "dflt": "attribute_group", "g": "group", "e": "element",
         "m": "element", "r": "element"}
 PROBES = [
     ('<t:r xmlns:t="urn:T"><t:e p="1"><t:x>a</t:x><t:y>1</t:y></t:e></t:r>', True),
@@ -61,6 +62,12 @@ PROBES = [
 ]
 HEAD = (f'<xs:schema xmlns:xs="{cm.XS}" targetNamespace="{TNS}" xmlns:t="{TNS}" xmlns:u="urn:U" xmlns:v="urn:V" '
         f'elementFormDefault="qualified">')
+# XSD 1.1: every document names t:dflt as its default attribute group (wherever that group is declared)
+HEAD11 = HEAD.replace('elementFormDefault=', 'defaultAttributes="t:dflt" elementFormDefault=')
+PROBES_BY_VERSION = [       # (document, valid in 1.0, valid in 1.1): the default attribute d exists in 1.1 only
+    ('<t:e xmlns:t="urn:T" d="5"><t:x>a</t:x><t:y>1</t:y></t:e>', False, True),
+    ('<t:e xmlns:t="urn:T" d="x"><t:x>a</t:x><t:y>1</t:y></t:e>', False, False),
+]
 # two further namespaces: V's attribute a is typed by U's simple type (V imports U, T imports both)
 U_XSD = (f'<xs:schema xmlns:xs="{cm.XS}" targetNamespace="urn:U"><xs:simpleType name="uT"><xs:restriction '
          'base="xs:int"><xs:maxInclusive value="100"/></xs:restriction></xs:simpleType></xs:schema>')
@@ -129,23 +136,31 @@ def spelling(kind, directory, fname):
     return "./sub/.././" + fname
 
 
+def decl(n, ver):
+    """tD inherits the default attributes from tB: in XSD 1.1 it must not get them a second time."""
+    return DECL[n].replace("@DA@", ' defaultAttributesApply="false"' if ver == "1.1" else "")
+
+
 def arrangement_case(job):
     order, idx, ver = job
     from xmlschema import _verif_trace as vt
     out, trs = [], []
+    head_ = HEAD11 if ver == "1.1" else HEAD
+    order = list(order)
+    order.insert(idx % (len(order) + 1), "dflt")      # the default attribute group, anywhere among the others
     ndocs = 1 + idx % 3
     assign = {n: (idx // (3 ** k)) % ndocs for k, n in enumerate(sorted(DECL))}
     with tempfile.TemporaryDirectory(prefix="verif c09 ") as d:     # a space: percent-encoding matters
         os.mkdir(os.path.join(d, "sub"))
         incs = []
         for j in range(1, ndocs):
-            body = "".join(DECL[n] for n in order if assign[n] == j)
+            body = "".join(decl(n, ver) for n in order if assign[n] == j)
             with open(os.path.join(d, f"part{j}.xsd"), "w") as f:      # every document imports what it refers to
-                f.write(HEAD + ('<xs:import namespace="urn:V"/>' if "v:a" in body else "") + body + "</xs:schema>")
+                f.write(head_ + ('<xs:import namespace="urn:V"/>' if "v:a" in body else "") + body + "</xs:schema>")
             incs.append(f'<xs:include schemaLocation="{spelling((idx + j) % 6, d, f"part{j}.xsd")}"/>')
         if idx % 2:
             incs.reverse()
-        if ndocs > 1 and idx % 5 == 0:
+        if ndocs > 1 and idx % 5 == 0 and 'schemaLocation="/' not in incs[0] and "file:" not in incs[0]:
             incs.append(incs[0].replace('schemaLocation="', 'schemaLocation="./'))      # same file twice
         # the imported namespaces: order of the imports, with or without locations, or no location at all and
         # the documents handed over as a list (in either order)
@@ -163,7 +178,7 @@ def arrangement_case(job):
         head = imps + incs if idx % 7 < 4 else incs + imps
         main = os.path.join(d, "main.xsd")
         with open(main, "w") as f:
-            f.write(HEAD + "".join(head) + "".join(DECL[n] for n in order if assign[n] == 0) + "</xs:schema>")
+            f.write(head_ + "".join(head) + "".join(decl(n, ver) for n in order if assign[n] == 0) + "</xs:schema>")
         src = main
         if listed:
             others = [os.path.join(d, "u.xsd"), os.path.join(d, "v.xsd")]
@@ -212,7 +227,7 @@ def arrangement_case(job):
                 diff = [x for x in fp if x not in fp0][:3]
                 out.append((f"{label}: components differ from the first build: {diff}", label))
                 continue
-            for xml, ok in PROBES:
+            for xml, ok in PROBES + [(x, b if ver == "1.1" else a) for x, a, b in PROBES_BY_VERSION]:
                 try:
                     v = sv.is_valid(xml)
                 except Exception as e:      # noqa: BLE001
@@ -347,7 +362,7 @@ def run(ctx: Ctx):
     orders = [r["order"] for r in a.json_records()]
     if len(orders) != 5040:
         raise MachineryError(f"expected 5040 staging orders, TLC emitted {len(orders)}")
-    stride = 7 if thorough else 63
+    stride = 7 if thorough else 61       # coprime to 2, 3, 5, 7: the index drives the split / spelling choices
     jobs = [(o, i, ver) for i, o in enumerate(orders) if i % stride == 0 for ver in ("1.0", "1.1")]
     all_traces, owners = [], []
     for (o, i, ver), (bad, trs) in zip(jobs, ctx.pmap(arrangement_case, jobs)):
